@@ -122,6 +122,10 @@ def collection_history(s, cidx):
         docs.append(gen.rand_message(rng, state, K.weighted_kinds(rng, K.kind_weights(1, 1, 0.3, 0)),
                                      60 + k, ids, pool=pool))
     rng.shuffle(docs)
+    judge_collection(s, docs, n_post, cidx, [rng.random() < 0.5, rng.random() < 0.5])
+
+
+def judge_collection(s, docs, n_post, cidx, again_plan):
     # before any merge: the collection holds a roDelete but its running order has not received it
     mc0, e0 = K.make_collection(s, docs, 'strings', False)
     if mc0 is not None:
@@ -144,7 +148,7 @@ def collection_history(s, cidx):
             continue
         n_ns = sum(1 for w in wl if type(w.message).__name__ == 'MosMergeNonStrictWarning')
         s.note_sig(('collection', strict, n_post, type(merr).__name__ if merr else 'ok', min(n_ns, 5)))
-        wit = {'type': 'collection', 'docs': docs, 'strict': strict}
+        wit = {'type': 'collection', 'docs': docs, 'strict': strict, 'n_post': n_post, 'again_plan': again_plan}
         if strict:
             if merr is None or 'MosCompletedMergeError' not in [c.__name__ for c in type(merr).__mro__]:
                 # an earlier (pre-roDelete) message may legitimately fail first
@@ -164,7 +168,7 @@ def collection_history(s, cidx):
             # completion is terminal for the collection too: merging it again adds every message to a
             # completed running order - refused (strict) or reported one by one (non-strict), nothing changes
             before = str(mc)
-            again_strict = rng.random() < 0.5
+            again_strict = again_plan[0 if strict else 1]
             err2, wn2 = K.merge_collection(s, mc, again_strict)
             EV.drain()
             s.evaluations += 1
@@ -193,12 +197,16 @@ def cli_history(s, i, tmpdir):
     ended = rng.random() < 0.8
     if ended:
         docs.append(B.msg_doc('roDelete', 50))
-    rc, reread, lib, argv = K.cli_roundtrip(s, docs, tmpdir, 'c07-%d' % i)
+    judge_cli(s, docs, ended, tmpdir, 'c07-%d' % i)
+
+
+def judge_cli(s, docs, ended, tmpdir, tag):
+    rc, reread, lib, argv = K.cli_roundtrip(s, docs, tmpdir, tag)
     s.evaluations += 1
     s.note_sig(('cli-roundtrip', ended, type(reread).__name__, rc))
     if lib is None:
         return
-    wit = {'type': 'collection', 'docs': docs, 'strict': False}
+    wit = {'type': 'cli-roundtrip', 'docs': docs, 'ended': ended}
     if isinstance(reread, Exception) or type(reread).__name__ != 'RunningOrder':
         s.custom_violation('running-order-written-by-cli-does-not-read-back',
                            {'got': type(reread).__name__, 'msg': str(reread)[:150], 'completed': ended}, wit, status='cli')
@@ -230,8 +238,15 @@ def run(s):
 def replay(s, data):
     w = data['witness']
     if w.get('type') == 'collection':
-        K.collection_merge(s, w['docs'], w['strict'], allow_incomplete=False)
-        s.notes.append('collection witness re-executed; inspect events')
+        judge_collection(s, w['docs'], w.get('n_post', 0), 0, w.get('again_plan', [True, False]))
+        return
+    if w.get('type') == 'cli-roundtrip':
+        import shutil, tempfile
+        tmpdir = tempfile.mkdtemp(prefix='verif-c07-')
+        try:
+            judge_cli(s, w['docs'], w['ended'], tmpdir, 'replay')
+        finally:
+            shutil.rmtree(tmpdir, ignore_errors=True)
         return
     K.replay_transition(s, data)
 
